@@ -197,6 +197,63 @@ theorem parseRequests_flags_match_server (cfg : Cfg) (j : Msg) (h : j.errs ≠ [
   unfold classify
   simp [h]
 
+/-! ### outbound parameters -/
+
+/-- whatever value is marshalled, a transmitted request has either no `params` member or one whose
+text starts (after blanks) with `[` or `{`; in particular never `"params":null` or a scalar -/
+theorem request_params_structured (id m : Bytes) (mp : Option Bytes) (b : Bool) (j : OutMsg)
+    (h : requestOut id m mp b = some j) :
+    j.id = id ∧ j.m = m ∧ (j.p = [] ∨ firstByte j.p = 91 ∨ firstByte j.p = 123) := by
+  unfold requestOut at h
+  cases mp with
+  | none => simp at h; subst h; simp
+  | some bits =>
+    simp only at h
+    cases ho : outParams bits with
+    | leaveOut => rw [ho] at h; simp at h; subst h; simp
+    | refuse => rw [ho] at h; simp at h
+    | keep p =>
+      rw [ho] at h; simp at h; subst h
+      refine ⟨rfl, rfl, Or.inr ?_⟩
+      unfold outParams at ho
+      by_cases hn : isNull bits = true
+      · simp [hn] at ho
+      · simp only [hn, Bool.false_eq_true, if_false] at ho
+        by_cases hc : (firstByte bits != 91 && firstByte bits != 123) = true
+        · simp [hc] at ho
+        · simp only [hc, Bool.false_eq_true, if_false] at ho
+          injection ho with ho; subst ho
+          simp only [Bool.and_eq_true, bne_iff_ne, ne_eq, not_and, Decidable.not_not] at hc
+          by_cases h91 : firstByte bits = 91
+          · exact Or.inl h91
+          · exact Or.inr (hc h91)
+
+/-- the library's own member parser accepts the transmitted parameters without error and keeps
+their text unchanged (so they parse back JSON-equal) -/
+theorem request_params_parse_back (id m : Bytes) (mp : Option Bytes) (b : Bool) (j : OutMsg)
+    (h : requestOut id m mp b = some j) (hp : j.p ≠ []) :
+    scanParams (some j.p) = (j.p, []) := by
+  obtain ⟨_, _, hs⟩ := request_params_structured id m mp b j h
+  have hfb : firstByte j.p = 91 ∨ firstByte j.p = 123 := by
+    rcases hs with h0 | h1
+    · exact absurd h0 hp
+    · exact h1
+  have hnn : isNull j.p = false := by
+    cases hn : isNull j.p with
+    | false => rfl
+    | true =>
+      have : j.p = [110, 117, 108, 108] := by simpa [isNull] using hn
+      rw [this] at hfb; revert hfb; decide
+  unfold scanParams
+  simp only [hnn, Bool.false_eq_true, if_false]
+  rcases hfb with h | h <;> simp [h]
+
+/-- a value that marshals to `null` (a nil pointer, `json.RawMessage("null")`) sends no member;
+a scalar is refused -/
+example : requestOut [49] [109] (some [110, 117, 108, 108]) = some { id := [49], m := [109] } := by decide
+example : requestOut [49] [109] (some [32, 91, 93]) = some { id := [49], m := [109], p := [32, 91, 93] } := by decide
+example : requestOut [49] [109] (some [53]) = none := by decide
+
 -- non-vacuity
 example : toJSON { id := [49], m := [109, 34, 10] } =
     prefixLit ++ idLit ++ [49] ++ methodLit ++ [34, 109, 92, 34, 92, 110, 34] ++ [125] := by decide
